@@ -132,6 +132,8 @@ Theorem C19_pubkey_partial : forall c h top es ep rnd seed kl p g,
   let nbytes := bytes_of_bits (gke_priv_len ep) in
   let y := OS2IP (kdf c h seed KDS_SERVICE (lit16z "DH") nbytes) in let x := OS2IP (rnd nbytes) in
   wfb (kdf c h seed KDS_SERVICE (lit16z "DH") nbytes) = true -> wfb (rnd nbytes) = true ->
+  (* since the repair of D16: the envelope carries the group's DH parameters and the group public value is a valid element *)
+  Kek.dh_group_params (gke_secret_params ep) kl p g -> dh_pub_valid p (dh_public p g y) ->
   gke_l2_key ep = concat (GkdiStructs.ffk_field_list {| ffk_key_length := kl; ffk_field_order := p; ffk_generator := g; ffk_public_key := dh_public p g y |}) ->
   exists kek kid, new_kek c rnd ep = Ok (kek, kid) /\
     kid_key_info kid = concat (GkdiStructs.ffk_field_list {| ffk_key_length := kl; ffk_field_order := p; ffk_generator := g; ffk_public_key := dh_public p g x |}).
